@@ -6,6 +6,9 @@ ids = [p['id'] for p in props]
 E = 'exploration'; M = 'model_checking'; F = 'fault_enumeration'
 # id: (level, technique, level text, level_note, design_ref)
 checks = {
+ 'C13': (E, 'bounded-exhaustive enumeration of token sequences, byte strings, mode-flag combinations and 1-edit neighbourhoods, run in crash-attributing worker subprocesses',
+         'Every token sequence up to 3 (quick) / 4 (thorough) tokens over a 73-token alphabet through four entry points, all 512 flag combinations on all <=2-token inputs, every byte string <=3 over the scanner alphabet and every 1-edit neighbour of ~90 hand seeds plus corpus files; oracle: returns, no escaping panic/fatal/hang, errors sorted, nil error implies no Bad node (reflection walk).',
+         'Hang = no progress for 60 s on one input in a solo re-run; nothing is claimed for inputs longer than the bound that are not 1-edit neighbours of a seed.', '§2 C13'),
  'C15': (M, 'explicit-state BFS over the real scanner (state = private insertSemi/nParen/last lexeme, actions = separator x lexeme) plus bounded-exhaustive byte strings, invariants checked on every scan',
          'Every reachable abstract scanner state is expanded with every (separator, lexeme) action on the real scanner, and every byte string up to length 4/5 over a 24-byte alphabet is scanned in both comment modes; in each the totality/offset/text/coverage invariants of the statement are evaluated. Complete within the stated alphabets and bounds.',
          'State canonicalisation assumes Scan depends only on remaining bytes + (insertSemi, nParen, pending unit); nParen clamped to -2..3. c\"\"/py\"\" literals are compared after their prefix, ILLEGAL tokens exempt from text equality, inserted semicolons may share a comment offset.', '§2 C15'),
